@@ -77,6 +77,7 @@ func runC19(c *Ctx) {
 	c.ruleGlobals("C19.globals")
 	c.ruleFormatTableWrites("C19.table")
 	c.ruleFormatReaders("C19.table")
+	c.ruleKeyBufferFresh("C19.confined")
 
 	// C19.confined
 	scratch := map[string]bool{"encrypt.tMap": true, "encrypt.trackedMaps": true}
